@@ -653,3 +653,14 @@ V("c25-twin-store-name-via-local", "C25", "-", "dask_array/io/_store.py", None, 
   ("dask_array/io/_store.py", "                name=f\"store-map-{id(t)}\",\n", "                name=node_name,\n"),
   ("dask_array/io/_store.py", "        slices = ArraySliceDep(s.chunks)\n        arrays.append(\n            map_blocks(\n                load_store_chunk,", "        slices = ArraySliceDep(s.chunks)\n        node_name = f\"store-map-{id(t)}\"\n        arrays.append(\n            map_blocks(\n                load_store_chunk,"),
 ])
+
+# ---------------------------------------------------------------------------- REF normal form twins
+V("c12-twin-double-negation", "C12", "-", "dask_array/slicing/_basic.py",
+  "    if np.isnan(x.chunks[axis]).any():\n        raise NotImplementedError(\"Slicing an array with unknown chunks with a dask.array of ints is not supported\")",
+  "    if not (not np.isnan(x.chunks[axis]).any()):\n        raise NotImplementedError(\"Slicing an array with unknown chunks with a dask.array of ints is not supported\")", twin=True)
+V("c12-twin-take-nested-to-and", "C12", "-", "dask_array/slicing/_basic.py",
+  "            if len(index) == x.shape[axis]:\n                arange = arange_safe(len(index), like=index)\n                if np.abs(index - arange).sum() == 0:\n                    return x",
+  "            if len(index) == x.shape[axis] and np.abs(index - arange_safe(len(index), like=index)).sum() == 0:\n                return x", twin=True)
+V("c28-twin-nan-guard-else-form", "C28", "-", "dask_array/slicing/_basic.py",
+  "    if np.isnan(x.chunks[axis]).any():\n        raise NotImplementedError(\"Slicing an array with unknown chunks with a dask.array of ints is not supported\")",
+  "    if not np.isnan(x.chunks[axis]).any():\n        pass\n    else:\n        raise NotImplementedError(\"Slicing an array with unknown chunks with a dask.array of ints is not supported\")", twin=True)
